@@ -251,3 +251,42 @@ PROPS["C03"] = dict(
                 thorough=[native("dbg"), native("rel"),
                           custom("miri_stage", release=False, shards=16, scale=1, name="miri:dev")]),
 )
+
+PROPS["C04"] = dict(
+    level="exploration",
+    technique="history + reference model: trace of unique `say` markers, Ok/Err outcome and number of statements started (H3) against the reference interpreter; H3 invariants on the control-flow state at statement boundaries",
+    level_text=("Generated terminating programs of nested if/else/while/until (depth <= 5) with break/continue (both spellings) at "
+                "every depth of nested ifs, empty branches, conditions of all six value kinds and a planted failing statement; "
+                "every `say` prints a unique marker so the output identifies which statements ran in which order. The marker "
+                "trace, the outcome and the count of statements rrss started must equal the reference model's; the H3 log must "
+                "show no loop statement completing in state Breaking/Continuing, no statement starting in a non-Normal state, "
+                "and an unchanged scope depth across every statement."),
+    level_note="Loops terminate by construction (own counter, bumped first thing in the body); the statement fuel (8x the model's steps + 1000) decides non-termination on a logical clock.",
+    rule=("cases = generated programs; distinct_nontrivial = distinct program texts that agreed with the model AND executed >= 1 loop "
+          "iteration AND (>= 1 break/continue/else branch or nesting depth >= 2)."),
+    require=["programs", "markers_checked", "model.loop_iterations", "model.breaks", "model.continues", "model.else_taken",
+             "runs_stopped_by_planted_error_with_output_preserved", "h3_events_checked", "statements_matched"],
+    assumptions=TRUST_BASE,
+    stages=dict(quick=[native("dbg")], thorough=[native("dbg"), native("rel")]),
+)
+
+PROPS["C05"] = dict(
+    level="exploration",
+    technique="history + reference model (scope stack, call protocol, pronoun referent with three-valued readings) over generated programs; terminal leak / pronoun / arity probes; H3 scope-depth balance",
+    level_text=("Generated programs with 1-4 functions (all three name kinds, 1-4 parameters, every separator), nested and recursive "
+                "calls, returns from inside ifs and loops, parameters shadowing globals, function and block locals, assignments to "
+                "outer names, Echo calls as left-to-right witnesses, pronoun reads and writes after each kind of naming statement. "
+                "Stdout, outcome and statement count must equal the reference model's; a terminal probe reads a local after its "
+                "activation ended / a pronoun right after a block or call ended / calls with wrong arity, a variable or an unknown "
+                "name and must produce the runtime error; the H3 log must show the same scope depth before and after every statement."),
+    level_note=("Don't-care (not compared, counted): names that only dynamic scoping resolves, pronouns where execution-order and "
+                "text-order readings disagree, pronoun at callee start / after an if that ran no block / after a loop whose condition names a variable."),
+    rule=("cases = generated programs; distinct_nontrivial = distinct program texts that executed >= 1 call and agreed with the model "
+          "(don't-care and over-budget runs excluded)."),
+    require=["programs", "model.calls", "model.returns_through_loop", "model.returns_through_if", "model.pronoun_uses",
+             "probe.leak_probe_function_local", "probe.leak_probe_parameter", "probe.leak_probe_block_local",
+             "probe.pronoun_probe_after_call", "probe.pronoun_probe_after_block", "probe.wrong_arity",
+             "probe.call_of_variable", "probe.read_unknown_name", "probe.call_unknown_function", "h3_events_checked"],
+    assumptions=TRUST_BASE,
+    stages=dict(quick=[native("dbg")], thorough=[native("dbg"), native("rel")]),
+)
